@@ -299,7 +299,7 @@ class JointScope(Scope):
     def get_volatile_parameters(self) -> FrozenMapping[str, Expression]:
         if self._volatile_parameters is None:
             volatile_parameters = {}
-            for parameter_name, scope in self._lookup:
+            for parameter_name, scope in self._lookup.items():
                 inner_volatile = scope.get_volatile_parameters()
                 if parameter_name in inner_volatile:
                     volatile_parameters[parameter_name] = inner_volatile[parameter_name]
